@@ -17,6 +17,7 @@ func MessageTransformSubscriberDecorator(transform func(*Message)) SubscriberDec
 		return &messageTransformSubscriberDecorator{
 			sub:       sub,
 			transform: transform,
+			closing:   make(chan struct{}),
 		}, nil
 	}
 }
@@ -40,6 +41,9 @@ type messageTransformSubscriberDecorator struct {
 
 	transform   func(*Message)
 	subscribeWg sync.WaitGroup
+
+	closing     chan struct{}
+	closingOnce sync.Once
 }
 
 func (t *messageTransformSubscriberDecorator) Subscribe(ctx context.Context, topic string) (<-chan *Message, error) {
@@ -54,7 +58,13 @@ func (t *messageTransformSubscriberDecorator) Subscribe(ctx context.Context, top
 		for msg := range in {
 			t.transform(msg)
 			verifhook.At("decorator.sub.before_out", msg.UUID, verifhook.Name(ctx))
-			out <- msg
+			select {
+			case out <- msg:
+			case <-t.closing:
+				// Close() was called and nobody reads the output: the message is dropped (unsettled)
+			case <-ctx.Done():
+				// the subscription was cancelled and nobody reads the output
+			}
 		}
 		close(out)
 		verifhook.At("decorator.sub.closed", verifhook.Name(ctx))
@@ -67,6 +77,7 @@ func (t *messageTransformSubscriberDecorator) Subscribe(ctx context.Context, top
 func (t *messageTransformSubscriberDecorator) Close() error {
 	err := t.sub.Close()
 
+	t.closingOnce.Do(func() { close(t.closing) })
 	t.subscribeWg.Wait()
 	return err
 }
